@@ -959,6 +959,86 @@ fn fullperm(a: &Args) {
     write_json(&a.str("out"), &json!({"cases": cases}));
 }
 
+/// shorthist out=<json> seed=N : at sizes far above the state graphs, EVERY history of at most 3 draws whose offsets come
+/// from {0, 1, 2, 3, last} (the values that make swaps overlap or not), followed by a reset; the pass after the reset is
+/// compared draw for draw, on the same generator words, with the pass of a new shuffle after its first reset, and must be
+/// a permutation.  A reset that restores only what the short history touched is exercised in every overlap pattern.
+fn shorthist(a: &Args) {
+    silence_panics();
+    let seed = a.u64_or("seed", 1);
+    let mut cases: Vec<Value> = Vec::new();
+    for m in [5usize, 64, 65, 66, 100, 129, 257, 1000, 4097, 70_001] {
+        let mut rng = rng_from(seed, 17_500 + m as u64);
+        let tape: Vec<u64> = (0..m).map(|_| rng.random_range(0..ONE)).collect();
+        let r = catch(|| {
+            let mut reference: Vec<usize> = Vec::with_capacity(m);
+            {
+                let mut fresh = FYshuffle::new(m);
+                fresh.reset();
+                for n in &tape {
+                    reference.push(fresh.next(&mut Fixed::new(*n)));
+                }
+            }
+            let offs = |k: usize| -> Vec<usize> {
+                let mut v: Vec<usize> = vec![0, 1, 2, 3, k - 1];
+                v.retain(|o| *o < k);
+                v.sort();
+                v.dedup();
+                v
+            };
+            let mut bad: Vec<Value> = Vec::new();
+            let mut histories = 0u64;
+            // the object is reused over all histories (each ends with a reset), and a second pass starts from a new one
+            for start_new in [false, true] {
+                let mut fy = FYshuffle::new(m);
+                fy.reset();
+                let mut hist: Vec<Vec<usize>> = vec![vec![]];
+                for depth in 0..3usize.min(m) {
+                    let k = m - depth;
+                    let mut next: Vec<Vec<usize>> = Vec::new();
+                    for h in hist.iter().filter(|h| h.len() == depth) {
+                        for o in offs(k) {
+                            let mut h2 = h.clone();
+                            h2.push(o);
+                            next.push(h2);
+                        }
+                    }
+                    hist.extend(next);
+                }
+                for h in &hist {
+                    histories += 1;
+                    if start_new {
+                        fy = FYshuffle::new(m);
+                        fy.reset();
+                    }
+                    for (d, o) in h.iter().enumerate() {
+                        let _ = fy.next(&mut Fixed::new(cell_mid(*o as u64, (m - d) as u64)));
+                    }
+                    fy.reset();
+                    let mut got: Vec<usize> = Vec::with_capacity(m);
+                    for n in &tape {
+                        got.push(fy.next(&mut Fixed::new(*n)));
+                    }
+                    if got != reference && bad.len() < 5 {
+                        let first = (0..m).find(|i| got[*i] != reference[*i]).unwrap_or(0);
+                        let mut seen = vec![false; m];
+                        let perm = got.iter().all(|v| *v < m && !std::mem::replace(&mut seen[*v], true));
+                        bad.push(json!({"history_offsets": h, "on_a_new_object": start_new, "first_difference_at_draw": first,
+                                        "got": got[first], "new_object": reference[first], "pass_is_a_permutation": perm}));
+                    }
+                    fy.reset();
+                }
+            }
+            (bad, histories)
+        });
+        match r {
+            Ok((bad, histories)) => cases.push(json!({"m": m, "histories": histories, "bad": bad})),
+            Err(msg) => cases.push(json!({"m": m, "histories": 0, "bad": [], "panic": msg})),
+        }
+    }
+    write_json(&a.str("out"), &json!({"cases": cases}));
+}
+
 /// longlife out=<json> seed=N cycles=C : ONE shuffle lives through C cycles of (a few draws, reset); at check points
 /// (dense around 2^8 and 2^16 and their multiples, sparse elsewhere) the pass after the reset is compared, draw for
 /// draw on the same generator words, with the pass of a new shuffle after its first reset: reset forgets the history, however long it is
@@ -1022,6 +1102,7 @@ fn main() {
         "replay" => replay(&a),
         "fullperm" => fullperm(&a),
         "longlife" => longlife(&a),
+        "shorthist" => shorthist(&a),
         "behav" => behav(&a),
         "meta" => meta(&a),
         "record" => record(&a),
